@@ -565,7 +565,11 @@ impl Terminal for UnixTerminal {
         while let Some(event) = self.poll(None)? {
             match event {
                 TerminalEvent::DeviceAttrs(..) => {
-                    self.events_queue.extend(queue);
+                    // events received before the report go back in front of
+                    // the ones that were received right after it
+                    for event in queue.into_iter().rev() {
+                        self.events_queue.push_front(event);
+                    }
                     return Ok(pos);
                 }
                 TerminalEvent::CursorPosition(term_pos) => {
